@@ -63,6 +63,7 @@ type Proc struct {
 	Parent *Proc
 	labels *labelSet
 	Cwd    string // working directory ("" = "/")
+	DiedOf string // why the process ended (first cause)
 
 	state    ProcState
 	ExitCode int
@@ -362,6 +363,9 @@ func (p *Proc) delFd(c closer) {
 //
 //go:norace
 func (p *Proc) die(code int, signaled bool, why string) bool {
+	if p.DiedOf == "" {
+		p.DiedOf = why
+	}
 	w := p.w
 	w.mu.Lock()
 	if p.state == Zombie || p.state == Reaped {
